@@ -197,3 +197,32 @@ func vfFileBytes(name string) ([]byte, bool) {
 	}
 	return ino.data, true
 }
+
+func vfStat(name string) (os.FileInfo, error) {
+	ino := vfDir[name]
+	if ino == nil {
+		return nil, os.ErrNotExist
+	}
+	return vfFInfo{size: int64(len(ino.data))}, nil
+}
+
+// vfRestartProcess: the process died; open handles are gone, the directory stays.
+func vfRestartProcess() {
+	vfHandles = map[*os.File]*vfHandle{}
+	vfCrashAt, vfFailAt = -1, -1
+}
+
+// vfRunUntilCrash runs f; returns true if the injected crash stopped it.
+func vfRunUntilCrash(f func()) (crashed bool) {
+	defer func() {
+		if r := recover(); r != nil {
+			if _, ok := r.(vfCrash); ok {
+				crashed = true
+				return
+			}
+			panic(r)
+		}
+	}()
+	f()
+	return false
+}
